@@ -265,12 +265,13 @@ func c17(c *ev.Ctx) {
 			}
 		}
 	}
-	subjects := []string{"", "abc", "Hello World", "line1\nline2", "  x  ", "aXbXc", "123", "héllo"}
-	patterns := []gast.Expr{gast.RegexLit{Pat: "l+"}, gast.RegexLit{Pat: "^h", Flags: "i"}, gast.RegexLit{Pat: "[0-9]+"}, gast.RegexLit{Pat: "X"}, gast.RegexLit{Pat: "^line2$"}, gast.RegexLit{Pat: "(a)(b)"}, gast.StrLit{V: "b"}, gast.StrLit{V: "^a"}, gast.IntLit{V: 2}}
+	subjects := []string{"", "abc", "Hello World", "line1\nline2", "  x  ", "aXbXc", "123", "héllo", "  Steve\t", "   ", " abc ", "abc\n", "\nabc", " l1 \n l2 ", "a-b-c", "5 USD"}
+	patterns := []gast.Expr{gast.RegexLit{Pat: "l+"}, gast.RegexLit{Pat: "^h", Flags: "i"}, gast.RegexLit{Pat: "[0-9]+"}, gast.RegexLit{Pat: "X"}, gast.RegexLit{Pat: "^line2$"}, gast.RegexLit{Pat: "(a)(b)"}, gast.StrLit{V: "b"}, gast.StrLit{V: "^a"}, gast.IntLit{V: 2},
+		gast.StrLit{V: "^Steve$"}, gast.RegexLit{Pat: "^$"}, gast.StrLit{V: "^abc$"}, gast.StrLit{V: "^\\s"}, gast.RegexLit{Pat: "\\s$"}, gast.StrLit{V: "-"}, gast.StrLit{V: "USD"}, gast.RegexLit{Pat: "^l2$"}, gast.RegexLit{Pat: "x*"}}
 	for _, s := range subjects {
 		for _, p := range patterns {
 			jobs = append(jobs, gast.Call{Fn: "match", Args: []gast.Expr{gast.StrLit{V: s}, p}})
-			for _, rep := range []string{"", "-", "<$1>", "$0$0"} {
+			for _, rep := range []string{"", "-", "<$1>", "$0$0", "$$", "${1}x", "$5"} {
 				jobs = append(jobs, gast.Call{Fn: "replace", Args: []gast.Expr{gast.StrLit{V: s}, p, gast.StrLit{V: rep}}})
 			}
 		}
